@@ -249,6 +249,10 @@ func ruleP15Total(p *Prog, r *Report) {
 								r.ok(rule, key, p.instrPos(x), "PlusDays(0) is total")
 								return
 							}
+							if d, inMonth := dayOfOwnMonth(recv); isK && inMonth && d+k >= 1 && d+k <= 28 {
+								r.ok(rule, key, p.instrPos(x), "the step starts on day %d of the date's own month and stays inside it (day %d): always representable", d, d+k)
+								return
+							}
 							if isK && calendarEndGuarded(f, x, recv, k) {
 								r.ok(rule, key, p.instrPos(x), "the step is excluded for the last/first representable date by an explicit guard")
 								return
@@ -287,6 +291,40 @@ func ruleP15Total(p *Prog, r *Report) {
 	if n < 15 {
 		r.undecided(rule, "floor", "-", "examined %d partial operations in the period methods, expected at least 15", n)
 	}
+}
+
+// dayOfOwnMonth: v is a date of the receiver's own year and month whose day of the month is a known
+// constant: NewDate(<date>.Year(), <date>.Month(), d) with 1 <= d <= 28 (a day every month has), or
+// such a date moved by a constant number of days that keeps it within 1..28 — it cannot leave the
+// month, and PlusDays is total for it because every such day is representable.
+func dayOfOwnMonth(v ssa.Value) (int64, bool) {
+	for depth := 0; depth < 4; depth++ {
+		if n, recv, a, _ := methodCall(v); n == "PlusDays" && len(a) == 1 && recv != nil {
+			k, isK := constInt(a[0])
+			if !isK {
+				return 0, false
+			}
+			d, ok := dayOfOwnMonth(recv)
+			if !ok || d+k < 1 || d+k > 28 {
+				return 0, false
+			}
+			return d + k, true
+		}
+		c, idx := callOf(v)
+		if c == nil || idx != 0 || staticCallee(c) == nil || fnBase(staticCallee(c)) != "NewDate" || pkgPathOfFn(staticCallee(c)) != modPath+"/klog" {
+			return 0, false
+		}
+		a := c.Common().Args
+		if len(a) != 3 || !accessorOfDate(a[0], "Year") || !accessorOfDate(a[1], "Month") {
+			return 0, false
+		}
+		d, isK := constInt(a[2])
+		if !isK || d < 1 || d > 28 {
+			return 0, false
+		}
+		return d, true
+	}
+	return 0, false
 }
 
 func describeConst(v ssa.Value) string {
@@ -535,6 +573,13 @@ func ruleP15Steps(p *Prog, r *Report) {
 					return
 				}
 			}
+			if l.kind == "Month" && l.method == "Period" {
+				_, recv, _, _ := methodCallOf(c)
+				if d, inMonth := dayOfOwnMonth(recv); inMonth && d+k >= 1 && d+k <= 28 {
+					r.ok(rule, key, p.instrPos(c), "from day %d of the date's own month to day %d of it: inside every month", d, d+k)
+					return
+				}
+			}
 			r.check(okSign && abs >= l.lo && abs <= l.hi, rule, key, p.instrPos(c), fmt.Sprintf("step %d lies in the interval that can never skip a %s", k, strings.ToLower(l.kind)), fmt.Sprintf("a step of %d days can skip a %s (allowed: %d..%d %s)", k, strings.ToLower(l.kind), l.lo, l.hi, map[int64]string{-1: "backward", 0: "either way", 1: "forward"}[l.sign]))
 		})
 		if ord == 0 {
@@ -675,6 +720,9 @@ func ruleP15Bounds(p *Prog, r *Report) {
 						}
 						continue
 					}
+					if _, inMonth := dayOfOwnMonth(in); inMonth {
+						continue
+					}
 					if n, _, a, _ := methodCall(in); n == "PlusDays" && len(a) == 1 {
 						continue
 					}
@@ -693,6 +741,18 @@ func ruleP15Bounds(p *Prog, r *Report) {
 			}
 			if bo, isB := iff.Cond.(*ssa.BinOp); isB && (bo.Op == token.NEQ || bo.Op == token.EQL) && accessorOfDate(bo.X, "Month") && accessorOfDate(bo.Y, "Month") {
 				okStop = true
+			}
+			// the following day is the first of a month: the same test, read off the day
+			if bo, isB := iff.Cond.(*ssa.BinOp); isB && (bo.Op == token.NEQ || bo.Op == token.EQL) && accessorOfDate(bo.X, "Day") {
+				if k, isK := constInt(bo.Y); isK && k == 1 {
+					if _, next, _, _ := methodCall(bo.X); next != nil {
+						if n, _, a, _ := methodCall(next); n == "PlusDays" && len(a) == 1 {
+							if st, isSt := constInt(a[0]); isSt && st == 1 {
+								okStop = true
+							}
+						}
+					}
+				}
 			}
 		}
 		r.check(okStop, rule, "Month.Period:stop", p.pos(mf.Pos()), "stops when the following day belongs to another month", "the month walk does not stop at the month's last day")
